@@ -532,7 +532,11 @@ func (g *G) dynamic1() reflect.Value {
 	case 12:
 		return g.Value(T(map[interface{}]interface{}{}))
 	default:
-		switch rapid.IntRange(0, 3).Draw(g.T, g.name("dynsl")) {
+		switch rapid.IntRange(0, 5).Draw(g.T, g.name("dynsl")) {
+		case 4:
+			return g.Value(T(Digest{})) // a named byte slice: a list of integers under its own name
+		case 5:
+			return g.Value(T([]Perm{}))
 		case 0:
 			return g.Value(T([]int32{}))
 		case 1:
@@ -555,7 +559,7 @@ func (g *G) dynamic1() reflect.Value {
 
 // TopShapes: the top-level shapes of C01.
 var topSliceTypes = []reflect.Type{
-	T([]Status{}), T([]Label{}),
+	T([]Status{}), T([]Label{}), T([]Perm{}), T(Digest{}), T([]Ratio{}), T([]Level{}),
 	T([]int32{}), T([]int64{}), T([]float64{}), T([]string{}), T([]bool{}), T([]Inner{}), T([]*Inner{}), T([][]int32{}), T([][]byte{}), T([]time.Time{}), T([]int16{}), T([]uint32{}),
 }
 var topMapTypes = []reflect.Type{
